@@ -499,9 +499,9 @@ def wiring(R, P):
             R.fn(f)
             exp = None
             for b in f.blocks.values():
-                if b.cond is not None and "cached_context.type" in f.show(b.cond) and "!=" in f.show(b.cond):
-                    c = f.d(b.cond)
-                    k = f.is_const(RU.uncast(f, c["a"][1])) if c["k"] == "bin" else None
+                if b.cond is not None and "cached_context.type" in f.show(b.cond):
+                    g_ = RU.cmp_norm(f, b.cond, True)  # `!= expected` or `== expected`: the same test
+                    k = f.is_const(RU.uncast(f, g_[2])) if g_ and g_[2] is not None and g_[1] in ("==", "!=") and f.show(RU.uncast(f, g_[0])).endswith("cached_context.type") else None
                     if k is not None and vals.get(k) != "UNKNOWN":
                         exp = vals.get(k)
             rd = None
@@ -531,11 +531,18 @@ def cache(R, P):
         if f.name.startswith("aws_cbor_decoder_pop_next_"):
             ok = len(dec) == 1 and len(stores) == 1 and stores[0][2] == unk
             if ok:
-                gs = [(f.show(f.d(c)).replace(" ", ""), pol) for c, pol, b in RU.guards(f, dec[0], dom)]
-                ok = any("error_code" in t and not pol for t, pol in gs) and any("cached_context.type!=" in t and not pol for t, pol in gs)
+                def ng(ev_):
+                    out = []
+                    for c_, pol_, b_ in RU.guards(f, ev_, dom):
+                        g_ = RU.cmp_norm(f, c_, pol_)
+                        if g_:
+                            out.append((f.show(RU.uncast(f, g_[0])), g_[1], f.is_const(RU.uncast(f, g_[2])) if g_[2] is not None else None))
+                    return out
+                gs = ng(dec[0])
+                ok = any("error_code" in l and op == "==" and k in (None, 0) for l, op, k in gs) and any(l.endswith("cached_context.type") and op == "==" and k == unk for l, op, k in gs)
                 e0 = [e for e in f.all_events() if e.blk == stores[0][0].id][0]
-                g2 = [(f.show(f.d(c)).replace(" ", ""), pol) for c, pol, b in RU.guards(f, e0, dom)]
-                ok = ok and any("cached_context.type!=" in t and "AWS_CBOR_TYPE_UNKNOWN" not in t and not pol for t, pol in g2)
+                g2 = ng(e0)
+                ok = ok and any(l.endswith("cached_context.type") and op == "==" and k is not None and k != unk for l, op, k in g2)
             R.check(ok, "CACHE", "%s:decode-when-empty-clear-when-given" % f.name, "%s()" % f.name, "decodes only with an empty cache and no error; clears the cache exactly when the expected type is handed out")
         elif f.name == "aws_cbor_decoder_peek_type":
             R.check(len(dec) == 1 and not stores, "CACHE", "peek:does-not-consume", "%s()" % f.name, "peek decodes at most one element and never clears the cache")
@@ -608,18 +615,29 @@ def skip(R, P):
             "peek, then while (next != BREAK) { consume; peek }: an empty indefinite container is skipped correctly",
             "the indefinite-length skip consumes an item before testing for the break (an empty container swallows the break and the following item)")
     # every nested failure is propagated, and the cache ends empty
+    # decided on the return states (NUM): on a path that returns success, every nested call's last result is zero - whether
+    # the failure is returned at once or carried to the return in a status variable (an expanded helper's result)
     bad = []
-    for e in rec + f.calls("aws_cbor_decoder_peek_type") + f.calls("s_cbor_decode_next_element"):
-        ok = False
-        for r in f.returns():
-            v = RU.uncast(f, r.node["a"][0]) if r.node["a"] else None
-            if v is not None and f.is_const(v) == -1:
-                for c, pol, b in RU.guards(f, r, dom):
-                    t = RU.call_test(f, c, pol)
-                    if t and t[0] is e.node and t[1] == "nonzero":
-                        ok = True
-        if not ok:
-            bad.append(e.line)
+    nested = rec + f.calls("aws_cbor_decoder_peek_type") + f.calls("s_cbor_decode_next_element")
+    numf = Num(f, P, C04.ParserHooks(), max_paths=20000)
+    retn = [x for b in f.blocks.values() for x in b.elems if x["k"] == "ret"]
+    try:
+        rst = numf.states_at({r_["id"] for r_ in retn})
+    except Limit as ex:
+        R.broken(str(ex))
+        rst = {}
+    n_succ = 0
+    for r_ in retn:
+        for st in rst.get(r_["id"], []):
+            rv = numf.val(r_["a"][0], st) if r_.get("a") else None
+            if rv is None or not (entails(st, rv) and entails(st, -rv)):
+                continue  # not a success return
+            n_succ += 1
+            for e in nested:
+                v = st.vals.get(e.node["id"])
+                if v is not None and not (entails(st, v) and entails(st, -v)) and e.line not in bad:
+                    bad.append(e.line)
+    R.require(n_succ >= 1 and len(nested) >= 3, "consume_next_whole_data_item: no success return state / nested calls not found (%d, %d)" % (n_succ, len(nested)))
     R.check(not bad, "SKIP", "failures-propagated", "%s()" % f.name, "every nested decode / skip / peek failure returns AWS_OP_ERR", "nested failures at lines %s are ignored" % bad)
     last = [r for r in f.returns() if r.node["a"] and f.is_const(RU.uncast(f, r.node["a"][0])) == 0]
     stores = [e for e in f.field_accesses(rec="aws_cbor_decoder_context", field="type", modes=("w",))]
